@@ -31,6 +31,7 @@ def check(ctx, tier):
     subset(ctx, tk)
     ragged_slice(ctx, tk)
     padded(ctx, tk)
+    padded_fresh(ctx, tk)
     npsindexable(ctx, tk)
     coh = ctx.cached("coherence", lambda: Coherence(tk))
     fs = [AF + n for n in ("concatenate", "where", "zeros_like", "ones_like", "empty_like")] + \
@@ -274,6 +275,21 @@ def padded(ctx, tk):
                 hi = tm.a[1][1]
                 ok = hi.k == "bin" and hi.a[0] == "-" and is_const(hi.a[2], 1) and hi.a[1].k == "sub" and is_const(hi.a[1].a[1], -1)
                 ctx.decide("C08.g", f, "gather positions are clamped to the last cell of the buffer", True if ok else None, node=n.ast, key="gather-clamp", engine="E8")
+
+
+def padded_fresh(ctx, tk):
+    """the padded matrix is a new array on every path: a shortcut handing back (a reshaped view of) the array's own buffer
+    makes later writes into the matrix change the ragged array"""
+    f = ctx.func(RA + "_as_padded_matrix")
+    fa = ctx.fa(f)
+    what = "the padded matrix shares no memory with the ragged array it was made from"
+    for r in fa.cfg.returns():
+        if r.ast.value is None:
+            continue
+        tm = fa.term(r.ast.value, r)
+        fr = tk.E.fresh(tm, fa)
+        ctx.decide("C08.g", f, what, True if fr[0] == "fresh" else (False if fr[0] == "alias" and any(x[0] != "<global>" for x in fr[1]) else None),
+                   "`%s` may be (a view of) the array's own buffer" % (tm,), node=r.ast, key="fresh-result", engine="E3")
 
 
 def npsindexable(ctx, tk):
